@@ -30,8 +30,9 @@ def _prepare():
         raise SystemExit('menpo imported from %s, not from %s' % (menpo.__file__, REPO))
     import menpo.transform, menpo.shape, menpo.image, menpo.landmark, menpo.model, menpo.feature  # noqa
     import menpo.math  # noqa
-    from vp import proxy
+    from vp import proxy, imagestub
     proxy.install()
+    imagestub.install()
 
 
 def _load(prop):
